@@ -1,6 +1,7 @@
 import Driver.PM
 import Driver.Expose
 import Driver.Ports
+import Driver.PortsOut
 import Driver.Outline
 
 /-- `pmodel <component>`: line-protocol driver over the executable model definitions. -/
@@ -9,5 +10,6 @@ def main (args : List String) : IO UInt32 := do
   | ["pm"] => DrvPM.main; return 0
   | ["expose"] => DrvExpose.main; return 0
   | ["ports"] => DrvPorts.main; return 0
+  | ["portsout"] => DrvPortsOut.main; return 0
   | ["outline"] => DrvOutline.main; return 0
   | _ => IO.eprintln "usage: pmodel <pm|expose|ports>"; return 2
